@@ -30,7 +30,7 @@ OPTIONAL = ["ellipse_axis_radii", "circularity", "perimeter", "iou"]
 # ----------------------------------------------------------------------------------------
 # initial state
 # ----------------------------------------------------------------------------------------
-def gen_config(rnd, *, seg=None, ndim=None, allow_optional=True, per_axis=True) -> dict:
+def gen_config(rnd, *, seg=None, ndim=None, allow_optional=True, per_axis=True, allow_seg_axes=False) -> dict:
     ndim = ndim if ndim is not None else (4 if rnd.random() < 0.25 else 3)
     seg = seg if seg is not None else rnd.random() < 0.6
     r = rnd.random()
@@ -58,6 +58,14 @@ def gen_config(rnd, *, seg=None, ndim=None, allow_optional=True, per_axis=True) 
     if seg:
         cfg["shape"] = [4, 6, 6] if ndim == 4 else rnd.choice([[8, 8], [9, 7], [10, 10]])
         cfg["seg_dtype"] = rnd.choice(["int64", "int32", "uint16", "uint64", "uint32"])
+        if allow_seg_axes and rnd.random() < 0.12:
+            # segmentation together with per-axis position attributes: only constructible through
+            # a pre-built FeatureDict; positions are static there, so such tracks are only
+            # queried / exported (cfg["static"]), never edited
+            cfg["seg_axes"] = True
+            cfg["static"] = True
+            cfg["route"] = "bare"
+            allow_optional = False
         if allow_optional:
             opts = []
             for k in OPTIONAL:
@@ -251,10 +259,13 @@ class World:
             o1, o2 = init["id_offsets"]
             for i, cls in enumerate(sorted(refs.tracklets(g.nodes, g.edges), key=lambda c: min(c))):
                 for n in cls:
-                    g.nodes[n][tkey] = 1 + o1 + 2 * i
+                    g.nodes[n][tkey] = o1 + 2 * i  # 0-based ids occur (o1 == 0)
             for i, cls in enumerate(sorted(refs.lineages(g.nodes, g.edges), key=lambda c: min(c))):
                 for n in cls:
-                    g.nodes[n][lkey] = 1 + o2 + 3 * i
+                    g.nodes[n][lkey] = o2 + 3 * i
+        if cfg.get("seg_axes"):
+            self._init_seg_axes(g, seg, axes, tkey, lkey)
+            return
         pos_attr = axes if (not cfg["seg"] and cfg["pos_mode"] == "axes") else cfg["pos_key"]
         kwargs = dict(
             segmentation=seg,
@@ -295,6 +306,40 @@ class World:
         tracks.refresh.connect(self._on_refresh)
         self.trace: list[dict] = []
         self.excluded: dict[str, int] = {}
+
+    def _init_seg_axes(self, g, seg, axes, tkey, lkey):
+        import funtracks.features as ff
+        from funtracks.data_model import SolutionTracks
+
+        cfg = self.cfg
+        sp = [1.0] * (self.ndim - 1) if cfg["scale"] is None else cfg["scale"][1:]
+        for n in list(g.nodes):
+            t = g.nodes[n][self.time_key]
+            idx = np.nonzero(seg[t] == n)
+            for a, ix, s_ in zip(axes, idx, sp):
+                g.nodes[n][a] = float(ix.mean()) * s_
+        for i, cls in enumerate(sorted(refs.tracklets(g.nodes, g.edges), key=lambda c: min(c))):
+            for n in cls:
+                g.nodes[n][tkey] = 1 + i
+        for i, cls in enumerate(sorted(refs.lineages(g.nodes, g.edges), key=lambda c: min(c))):
+            for n in cls:
+                g.nodes[n][lkey] = 1 + i
+        ax = {"feature_type": "node", "value_type": "float", "num_values": 1, "required": True, "default_value": None}
+        feats = {self.time_key: ff.Time(), tkey: ff.TrackletID(), lkey: ff.LineageID()}
+        for a in axes:
+            feats[a] = dict(ax)
+        fd = ff.FeatureDict(feats, time_key=self.time_key, position_key=list(axes), tracklet_key=tkey, lineage_key=lkey)
+        with warnings.catch_warnings():
+            warnings.simplefilter("ignore")
+            tracks = SolutionTracks(g, segmentation=seg, scale=copy.deepcopy(cfg["scale"]), ndim=self.ndim, features=fd)
+            tracks.features[CUSTOM_NODE] = ff.Feature(feature_type="node", value_type="float", num_values=1,
+                                                      display_name="Score", required=False, default_value=None)
+        self.tracks = tracks
+        self.tkey, self.lkey, self.pos_key = tkey, lkey, list(axes)
+        self.emissions = []
+        tracks.refresh.connect(self._on_refresh)
+        self.trace = []
+        self.excluded = {}
 
     def _on_refresh(self, *args):
         self.emissions.append(args)
@@ -391,6 +436,15 @@ class World:
         changed = old != value
         out.info["changed"] = int(changed.sum())
         if not changed.any():
+            if op.get("report_unchanged"):
+                # a stroke that changes no pixel, still reported by the caller: a valid
+                # user action with nothing to do (one history step, one refresh)
+                grp = (tuple(a for a in full), value) if value == 0 else None
+                out.info["painted"] = seg.copy()
+                out.info["overwritten"] = []
+                out.action = ua.UserUpdateSegmentation(tr, value, [grp] if grp else [], op["track_id"],
+                                                       force=op.get("force", False))
+                return
             out.info["noop"] = True
             return
         full = tuple(a[changed] for a in full)
@@ -477,6 +531,8 @@ def gen_op(world: World, rnd, weights: dict, refusal_bias: float = 0.08) -> dict
         if x < 0:
             kind = k
             break
+    if "undo" in weights and world.trace and world.trace[-1]["op"] == "undo" and rnd.random() < 0.4:
+        kind = "undo"  # undos come in bursts (several steps back, then a new edit)
     bad = rnd.random() < refusal_bias  # deliberately invalid argument
     tr = world.tracks
     if kind == "add_node":
@@ -568,6 +624,8 @@ def _gen_track_id(world, rnd, t=None):
     tr = world.tracks
     tids = world.track_ids()
     r = rnd.random()
+    if r < 0.04:
+        return 0  # a user-chosen 0-based track id
     if tids and r < 0.5:
         return _pick(rnd, tids)
     if r < 0.8:
@@ -609,6 +667,13 @@ def _gen_add_node(world, rnd, bad) -> dict:
                 attrs[k] = v
         else:
             attrs[pk] = pos
+    elif isinstance(world.pos_key, list) and rnd.random() < 0.6:
+        # a *partial* position: some but not all per-axis keys
+        pk = list(world.pos_key)
+        drop = rnd.randint(0, len(pk) - 1)
+        for i, k in enumerate(pk):
+            if i != drop:
+                attrs[k] = round(rnd.random() * 5, 2)
     if bad:
         r = rnd.random()
         if r < 0.2:
@@ -662,7 +727,20 @@ def _gen_paint(world, rnd, bad=False) -> dict:
     op = {"op": "paint", "time": t, "pixels": [a.tolist() for a in idx], "value": int(value),
           "track_id": _gen_track_id(world, rnd), "force": rnd.random() < 0.45,
           "order": rnd.choice(["asc", "desc"])}
-    if bad and value != 0 and world.frames > 1 and rnd.random() < 0.6:
+    if rnd.random() < 0.06:
+        # degenerate stroke: nothing changes (eraser over background, or an existing label
+        # over its own pixels), but the caller reports it anyway
+        bg = seg[t] == 0
+        if value == 0 and bg.any():
+            idx = np.nonzero(bg)
+            k = rnd.randint(1, min(4, len(idx[0])))
+            op["pixels"] = [a[:k].tolist() for a in idx]
+            op["report_unchanged"] = True
+        elif value in in_frame:
+            idx = np.nonzero(seg[t] == value)
+            op["pixels"] = [a[:2].tolist() for a in idx]
+            op["report_unchanged"] = True
+    if bad and value != 0 and world.frames > 1 and rnd.random() < 0.6 and not op.get("report_unchanged"):
         # invalid argument: one update whose pixels span two time points
         t2 = (t + 1 + rnd.randint(0, world.frames - 2)) % world.frames
         if value not in world.nodes():  # a fresh label only (an existing label belongs to one frame)
